@@ -275,6 +275,23 @@ func corpus(c *ctxT) []Case {
 	out = append(out, verifyCases(c, 5, 12)...)
 	out = append(out, verifyCases(c, 6, 12)...)
 	out = append(out, Case{ID: c.next(), Kind: "chain", Z: zs(big.NewInt(12), big.NewInt(4711))})
+	// the regime after the KawPow fork (own PRNG: the cases above are the ones they were before): the share functions and
+	// the fork-aware base fee at every fork height, and verify pairs of the four post-fork parent variants - the first two
+	// (moving averages / on the fork block) with every share-field deviation
+	saved = c.rng
+	c.rng = hlib.NewRng(20260924).Fork()
+	for i := 0; i < 45; i++ {
+		out = append(out, genShareCase(c, "share"))
+	}
+	for i := 0; i < 25; i++ {
+		out = append(out, genShareCase(c, "basefeex"))
+	}
+	for v := 1; v <= 4; v++ {
+		c.sub8, c.allShareDevs = v, v <= 2
+		out = append(out, verifyCasesAt(c, 8, 8, nil, true)...)
+	}
+	c.sub8, c.allShareDevs = 0, false
+	c.rng = saved
 	return out
 }
 
@@ -309,5 +326,16 @@ func generate(c *ctxT, n int, tier string) {
 		default:
 			c.run(Case{ID: c.next(), Kind: "chain", Z: zs(big.NewInt(int64(4+c.rng.Intn(12))), u(c.rng.Next()%1000000))})
 		}
+	}
+	// after the KawPow fork (a stream of its own, forked off at the end: the cases above are unchanged by it)
+	c.rng = hlib.NewRng(c.rng.Next()).Fork()
+	for i := 0; i < n/20+2; i++ {
+		for _, cs := range verifyCases(c, 8, 4) {
+			c.run(cs)
+		}
+		for j := 0; j < 3; j++ {
+			c.run(genShareCase(c, "share"))
+		}
+		c.run(genShareCase(c, "basefeex"))
 	}
 }
